@@ -16,7 +16,11 @@ blank. A normalized path is `$` followed by `.K(<hex>)` and `[<n>]`.
 * `spec <targets> <doc>` — `expected targets doc` in the same form
 * `pm <dev> <target> <path>` — `pathMatch` (`t`/`f`); here a filter may stand anywhere
 * `ok <dev> <targets>` — one letter per target: `t` if `okTarget dev target` (the hypothesis of the
-  C17 theorems), else `f` -/
+  C17 theorems), else `f`
+* `streamed <dev> <i|s|is> <targets> <doc>` — what the recorded deviations predict for a target set
+  without filters: `expected (targets.map (asStreamedWith idx sl)) doc` (`i`: from-the-end indexes and
+  union members select nothing, `s`: a slice selects every index; `is` is `C17_streamed`'s right-hand
+  side). `n/a` for a set with a filter, and for `s` under a matcher that applies slice bounds -/
 namespace OjgVerif.Match
 open OjgVerif
 
@@ -199,6 +203,15 @@ def handle : List String → String
   | ["pm", dev, tg, path] =>
     match readDev dev, readTargetAny tg, readPath path with
     | some dv, some t, some p => if pathMatch dv t p then "t" else "f"
+    | _, _, _ => "bad-op"
+  | ["streamed", dev, mode, tgs, doc] =>
+    match readDev dev, readTargets tgs, readJV doc with
+    | some dv, some ts, some d =>
+      let idx := mode.contains 'i'
+      let sl := mode.contains 's'
+      if !(mode = "i" || mode = "s" || mode = "is") then "bad-op"
+      else if ts.any (fun t => t.any isFilterFrag) || (sl && !dv.sliceAll) then "n/a"
+      else callbacksText (expected (ts.map (asStreamedWith idx sl)) d)
     | _, _, _ => "bad-op"
   | ["ok", dev, tgs] =>
     match readDev dev, readTargets tgs with
